@@ -5,7 +5,7 @@ import props.ppu_common as pc
 
 MANIFEST = {
     "level": "proof",
-    "text": "The request outputs of ppu.EndMachineCycle (the calls of interrupts.RequestVblank / RequestStat, used through their contracts) are proved, for every frame position q and every STAT/LYC/flag state satisfying the timing invariant of C13: VBlank is requested iff the LCD is on and q is the first cycle of line 144; the STAT request is raised iff one of the enabled sources has its rising edge in this call - HBlank source at cycle 61 of lines 0-143, VBlank source at the start of line 144, OAM source at cycle 0 of every line 0-143 (including line 0 after line 153), coincidence source at cycle 0 of the line equal to LYC - and nothing is requested with the LCD off; the coincidence flag is updated at cycle 0 of each line. A scan proves that no other function of package ppu calls the request methods. The very first call after switch-on is a declared don't-care for the OAM source (the statement does not define switching on as an edge); there only the coincidence source may request.",
+    "text": "The request outputs of ppu.EndMachineCycle (the calls of interrupts.RequestVblank / RequestStat, used through their contracts) are proved, for every frame position q and every STAT/LYC/flag state satisfying the timing invariant of C13: VBlank is requested iff the LCD is on and q is the first cycle of line 144; the STAT request is raised iff one of the enabled sources has its rising edge in this call - HBlank source at cycle 61 of lines 0-143, VBlank source at the start of line 144, OAM source at cycle 0 of every line 0-143 (including line 0 after line 153), coincidence source at cycle 0 of the line equal to LYC - and nothing is requested with the LCD off; the coincidence flag is updated at cycle 0 of each line. A scan proves that no other function of package ppu calls the request methods. The very first call after switch-on is a declared don't-care for the OAM source (the statement does not define switching on as an edge); there only the coincidence source may request. The LCD switch functions (enable, disable, WriteLCDC) are obligations here too: they keep the timing invariant and change nothing when bit 7 does not change.",
     "note": "Trusted: go/ssa, engine semantics, z3. Builds on C13's invariant; the single-source restriction of the statement is not needed (the contract gives the exact disjunction for any combination of sources).",
     "technique": "function contract (exact request outputs as a function of the frame position) on the real go/ssa + SSA scan; z3",
     "design_ref": "DESIGN.md section 4 C14",
@@ -24,6 +24,10 @@ def request_callers(ctx):
 def tasks(ctx):
     ts = [pc.ppu_task("EndMachineCycle", ["off", "coincidence", "vblank", "stat", "statSwitchOn", "inv"]),
           pc.ppu_task("WriteSTAT", ["0"]), pc.ppu_task("WriteLYC", ["0"]),
+          # the request conditions are phrased over the frame position: the only other writers of the position (and of the
+          # first-line flag that shortens a line) are the LCD switch functions, which must keep the timing invariant and do
+          # nothing when bit 7 does not change
+          pc.ppu_task("enable", ["0", "inv"]), pc.ppu_task("disable", ["0", "inv"]), pc.ppu_task("WriteLCDC", ["on", "off", "same", "inv"]),
           scan_lemma("scan:only-EndMachineCycle-requests-lcd-interrupts", request_callers, ["ppu (package scan)"])]
     return filter_tasks(ts)
 
